@@ -97,6 +97,57 @@ pub fn pair_sweep(seed: &[u8], head: usize) -> Vec<(String, Vec<u8>)> {
 }
 
 /// every truncation length ≤ 64, then sampled
+/// Decimal numbers in a text input replaced by boundary values: every maximal run of ASCII digits
+/// (the first `max_runs` of them) by each value of the list — widths, counts and sizes that a
+/// parser multiplies, adds to or allocates by.
+pub fn decimal_sweep(seed: &[u8], max_runs: usize) -> Vec<(String, Vec<u8>)> {
+    const VALUES: [&str; 17] = [
+        "0",
+        "1",
+        "255",
+        "256",
+        "65535",
+        "65536",
+        "2147483647",
+        "2147483648",
+        "4294967295",
+        "4294967296",
+        "9223372036854775807",
+        "9223372036854775808",
+        "12297829382473034411",
+        "18446744073709551615",
+        "18446744073709551616",
+        "340282366920938463463374607431768211456",
+        "-1",
+    ];
+    let mut out = Vec::new();
+    let mut runs = 0usize;
+    let mut i = 0usize;
+    while i < seed.len() && runs < max_runs {
+        if seed[i].is_ascii_digit() {
+            let start = i;
+            while i < seed.len() && seed[i].is_ascii_digit() {
+                i += 1;
+            }
+            // not inside a hex string (a run between hex letters is part of a hash)
+            let hexish = |b: u8| b.is_ascii_hexdigit() && !b.is_ascii_digit();
+            if (start > 0 && hexish(seed[start - 1])) || (i < seed.len() && hexish(seed[i])) || i - start > 20 {
+                continue;
+            }
+            runs += 1;
+            for v in VALUES {
+                let mut b = seed[..start].to_vec();
+                b.extend_from_slice(v.as_bytes());
+                b.extend_from_slice(&seed[i..]);
+                out.push((format!("decimal@{start}:={v}"), b));
+            }
+        } else {
+            i += 1;
+        }
+    }
+    out
+}
+
 pub fn truncations(seed: &[u8], r: &mut Rng, sampled: usize) -> Vec<(String, Vec<u8>)> {
     let mut v = Vec::new();
     for l in 0..=64usize.min(seed.len()) {
@@ -418,6 +469,42 @@ pub fn shapes(target: &str, thorough: bool) -> Vec<(String, Vec<u8>)> {
                     }
                     b.extend_from_slice(b"BLTE\0\0\0\0Npayload");
                     v.push((format!("shape: {d} single-chunk containers nested through mode {}", mode as char), b));
+                }
+            }
+            // every short body of an encrypted chunk: key name size, key name, IV size {4, 8, other},
+            // cut at each length 0..=32 — as a single-chunk file and as the one chunk of a chunk
+            // table (sizes and checksum right), so that the key lookup succeeds with the target's store
+            for iv in [4u8, 8, 0, 16, 255] {
+                let mut full = vec![8u8];
+                full.extend_from_slice(&0x1122_3344_5566_7788u64.to_le_bytes());
+                full.push(iv);
+                full.extend((0..24u8).map(|i| 0xA0 + i));
+                for cut in 0..=full.len().min(32) {
+                    for ty in [b'S', b'A', 0u8] {
+                        let mut body = full[..cut].to_vec();
+                        // the byte behind the IV is the cipher type when it is there
+                        let tpos = 10 + iv as usize;
+                        if tpos < body.len() && ty != 0 {
+                            body[tpos] = ty;
+                        } else if ty != b'S' {
+                            continue;
+                        }
+                        let mut chunk = vec![b'E'];
+                        chunk.extend_from_slice(&body);
+                        let mut single = b"BLTE\0\0\0\0".to_vec();
+                        single.extend_from_slice(&chunk);
+                        v.push((format!("shape: encrypted chunk, IV size {iv}, body cut to {cut} bytes, type {ty:#x}, single chunk"), single));
+                        // header: magic, header size (8 + 4 + 24), flags 0x0f, one chunk, sizes, MD5
+                        let mut multi = b"BLTE".to_vec();
+                        multi.extend_from_slice(&36u32.to_be_bytes());
+                        multi.push(0x0f);
+                        multi.extend_from_slice(&[0, 0, 1]);
+                        multi.extend_from_slice(&(chunk.len() as u32).to_be_bytes());
+                        multi.extend_from_slice(&(cut.saturating_sub(tpos + 1) as u32).to_be_bytes());
+                        multi.extend_from_slice(&md5::md5(&chunk));
+                        multi.extend_from_slice(&chunk);
+                        v.push((format!("shape: encrypted chunk, IV size {iv}, body cut to {cut} bytes, type {ty:#x}, chunk table"), multi));
+                    }
                 }
             }
         }
